@@ -94,7 +94,7 @@ class World:
         ops = []
         for k in spec.kinds:
             if self.packed and k in ('undo', 'undo2', 'stale', 'restore',
-                                     'stalegone'):
+                                     'stalegone', 'undotry'):
                 continue    # the list model does not follow a pack
             if k == 'new':
                 # symmetry: only the lowest unused oid of each class
@@ -136,6 +136,14 @@ class World:
                 ul = [d for d in m.undoLog() if d['_n']]
                 n = min(spec.undo_k, len(ul))
                 ops += [('undo', i) for i in range(n) if not ul[i]['_dup']]
+            elif k == 'undotry':
+                # a storage client that catches the refusal of an undo and
+                # goes on to commit the (otherwise empty) transaction
+                ul = [d for d in m.undoLog() if d['_n']]
+                n = min(spec.undo_k, len(ul))
+                ops += [('undotry', i) for i in range(n)
+                        if not ul[i]['_dup'] and self.plan(
+                            [('undo', self._tid_of(ul[i]))])[0] != 'ok']
             elif k == 'undo2':
                 ul = [d for d in m.undoLog() if d['_n']]
                 if len(ul) >= 2 and not ul[0]['_dup'] and not ul[1]['_dup']:
@@ -318,6 +326,10 @@ class World:
             ul = [d for d in m.undoLog() if d['_n']]
             return self.txn([('undo', self._tid_of(ul[op[1]]))],
                             desc=b'undo')
+        if k == 'undotry':
+            ul = [d for d in m.undoLog() if d['_n']]
+            return self.txn([('undo-try', self._tid_of(ul[op[1]]))],
+                            desc=b'undotry')
         if k == 'undo2':
             ul = [d for d in m.undoLog() if d['_n']]
             return self.txn([('undo', self._tid_of(ul[op[1]])),
@@ -415,6 +427,18 @@ class World:
                     r = Rec(oid, 'data', data)
                 recs.append(r)
                 pending[oid] = r
+            elif a[0] == 'undo-try':
+                # (only offered when the model refuses the undo: nothing is
+                # written, the transaction goes on; the records are looked
+                # at all the same, and mergeable ones shown to the class)
+                t = m.txn_by_tid(a[1])
+                if t is not None and t.status == ' ':
+                    tried = {}
+                    for u in t.recs:
+                        r = self._undo_rec(u, tried.get(u.oid) or cur(u.oid))
+                        if r is not None:
+                            tried[u.oid] = r
+                continue
             elif a[0] == 'undo':
                 t = m.txn_by_tid(a[1])
                 if t is None or t.status != ' ':
@@ -535,6 +559,15 @@ class World:
                 r = call(s.restore, a[1], tid, a[2], '', a[3], t)
             elif a[0] == 'undo':
                 r = call(s.undo, encodebytes(a[1]).rstrip(), t)
+            elif a[0] == 'undo-try':
+                r = call(s.undo, encodebytes(a[1]).rstrip(), t)
+                if r == Exc('UndoError'):
+                    continue            # caught by the client
+                call(s.tpc_abort, t)
+                self.bad('step', 'undo:UndoError->%s' % (
+                    r.name if isinstance(r, Exc) else 'ok'),
+                    dict(action=a[0], got=repr(r)))
+                return 'error'
             exp_fail = plan[0] == i
             if isinstance(r, Exc):
                 ra = call(s.tpc_abort, t)
@@ -629,6 +662,8 @@ class World:
                      status))
         if resolved:
             return 'resolved'
+        if any(a[0] == 'undo-try' for a in actions):
+            return 'undo-refused-commit'
         if any(a[0] == 'undo' for a in actions):
             return 'undo-ok'
         return 'commit'
